@@ -76,21 +76,34 @@ def _norm(path, table):
     """temporary names carry a random uuid: rename them by order of first appearance"""
     def sub(m):
         return '.tmp-#%d-' % table.setdefault(m.group(0), len(table))
-    return re.sub(r'\.tmp-[0-9a-f]{32}-', sub, path)
+    return re.sub(r'\.tmp-(?:[0-9a-f]{32}|\d+)-', sub, path)
 
 
-def _events(ev):
+def _events(ev, existing=()):
+    """shim log -> model events.  The shim logs an operation BEFORE performing it, so an open without O_CREAT of a path
+    that does not exist (HDF5 probes that way before creating) is a failed call and is passed on as a no-op."""
     table, out = {}, []
+    exists = set(existing)
     for e in ev:
         op = e['op']
-        if op.startswith('open'): o = {'op': 'openw', 'trunc': e['q'] == 'trunc' or bool(e['n'] & 0o1000)}
+        p = _norm(e['p'], table)
+        if op.startswith('open'):
+            creat = bool(e['n'] & 0o100)
+            if not creat and p not in exists:
+                o = {'op': 'other'}
+            else:
+                o = {'op': 'openw', 'trunc': e['q'] == 'trunc' or bool(e['n'] & 0o1000)}
+                exists.add(p)
         elif op in ('write', 'pwrite'): o = {'op': 'write', 'n': e['n'], 'pw': op == 'pwrite'}
         elif op == 'close': o = {'op': 'close'}
-        elif op == 'rename': o = {'op': 'rename', 'q': _norm(e['q'], table)}
-        elif op in ('unlink', 'unlinkat') and not (op == 'unlinkat' and e['n'] == 512): o = {'op': 'unlink'}
+        elif op == 'rename':
+            o = {'op': 'rename', 'q': _norm(e['q'], table)}
+            if p in exists: exists.discard(p); exists.add(o['q'])
+        elif op in ('unlink', 'unlinkat') and not (op == 'unlinkat' and e['n'] == 512):
+            o = {'op': 'unlink'}; exists.discard(p)
         else: o = {'op': 'other'}
         o['pid'] = 1
-        o['p'] = _norm(e['p'], table)
+        o['p'] = p
         out.append(o)
     return out, table
 
@@ -134,8 +147,9 @@ def run_real_many(cases_, ctx):
 def model_request(c, obs):
     sc = c['sc']
     ev = c['trace'] if c['k'] == 0 else obs['events']
-    events, table = _events(ev)
     ext = {'joblib': '.dmp', 'h5netcdf': '.h5', 'pickle': '.pkl', 'csv': '.csv'}.get(sc.get('engine'), '')
+    pre = ['data' + ext] if sc['kind'] in ('harvester', 'sampler') and sc.get('init', True) else []
+    events, table = _events(ev, pre)
     return {'op': 'fstrace', 'events': events, 'data_files': ['data' + ext]}
 
 
@@ -146,11 +160,17 @@ def compare(c, obs, rep):
             return f'the traced run does not follow the atomic-publication protocol: event {rep["first_bad"]} {e["op"]} {e["p"]} {e["q"]}'
         return None
     # state correspondence: the crashed directory is the model's state after the same prefix
-    _, table = _events(obs['events'])
+    sc = c['sc']
+    ext = {'joblib': '.dmp', 'h5netcdf': '.h5', 'pickle': '.pkl', 'csv': '.csv'}.get(sc.get('engine'), '')
+    pre = ['data' + ext] if sc['kind'] in ('harvester', 'sampler') and sc.get('init', True) else []
+    _, table = _events(obs['events'], pre)
     real = {}
     for p, size in obs['listing'].items():
         real[_norm(p, table)] = size
-    pw = {o['p'] for o in _events(obs['events'])[0] if o.get('pw')}
+    pw = set()          # files written with pwrite (HDF5): sizes are not modelled, also after they were renamed
+    for o in _events(obs['events'], pre)[0]:
+        if o.get('pw'): pw.add(o['p'])
+        if o['op'] == 'rename' and o['p'] in pw: pw.add(o['q'])
     model = {p: f['size'] for p, f in rep['files'].items()}
     pre_existing = {p for p in real if p.startswith('data')}      # the farmer's file existed before the traced run
     for p in set(real) | set(model):
